@@ -379,7 +379,8 @@ Definition parse_nameserver_uri (entry : bytes) : uri_res :=
                     if negb (c =? ch_colon) then None
                     else if (length p =? 0)%nat || (5 <? length p)%nat then None
                     else if negb (str_isnum p) then None
-                    else Some (u16 (digits_value p))
+                    else if (65535 <? digits_value p)%Z then None        (* a port above 65535 is refused *)
+                    else Some (digits_value p)
                   end in
                 match port with
                 | None => UriFail
@@ -415,7 +416,7 @@ Definition parse_nameserver_uri (entry : bytes) : uri_res :=
                       | Some v =>
                         if negb (str_isnum v) || (5 <? length v)%nat then UriFail else
                         match atoi v with
-                        | Ok t => UriOk (mkSconf a udp (u16 t) iface 0)
+                        | Ok t => if (65535 <? t)%Z then UriFail else UriOk (mkSconf a udp t iface 0)
                         | UB k => UriUB k
                         | Err _ => UriFail
                         end
@@ -456,7 +457,8 @@ Definition parse_nameserver (entry : bytes) : outcome sconf :=
                 let sp := span isdigit (tl rest) in
                 match fst sp with
                 | [] => Err ARES_EBADSTR
-                | ds => do ps <- fetch_string 6 ds; do p <- atoi ps; Ok (u16 p, snd sp)
+                | ds => do ps <- fetch_string 6 ds; do p <- atoi ps;
+                        if (65535 <? p)%Z then Err ARES_EBADSTR else Ok (p, snd sp)
                 end
               else Ok (0%Z, rest));
     let port := fst pr in
